@@ -21,6 +21,7 @@ decides the structural necessary conditions:
 from __future__ import annotations
 
 import ast
+import os
 from typing import List, Optional, Set
 
 from ..cfg import CFG
@@ -524,8 +525,223 @@ def run(rep: Report, tier: str):
     rep.rule("C06.end-position", "after parsing the stream is only positioned at the end of the last opcode", 2)
     rep.rule("C06.stack-loop", "one normalisation, one stream object, every non-empty parse kept, ends on empty parse", 4)
     rep.assume("pickletools.genops yields (info, arg, pos) in stream order and only advances the stream (trusted tokeniser)")
+    rep.rule("C06.round-trip", "Pickled.load/dumps and StackedPickle.load, interpreted over a corpus of real pickle byte strings, are byte-exact and partition stacks", 1)
     check_concat(repo, rep)
     check_load(repo, rep)
+    check_round_trip(repo, rep, tier)
     check_ctor_total(repo, rep)
     check_make_stream(repo, rep)
     check_stack_loop(repo, rep)
+
+
+# ------------------------------------------------------------------------------------------------------------------------
+# C06.round-trip: Pickled.load / dumps and StackedPickle.load interpreted over a corpus of real pickle byte strings
+# ------------------------------------------------------------------------------------------------------------------------
+def _corpus(tier: str):
+    """(label, bytes).  The bytes are data: what CPython's pickler writes for sample values at every protocol, plus
+    hand-assembled streams with the non-canonical spellings the reader accepts (the pickler never writes them, but a parser
+    that re-encodes from the decoded argument changes them)."""
+    import collections
+    import datetime
+    import fractions
+    import pickle
+
+    big = 2 ** 70
+    shared = [1, 2]
+    rec: list = []
+    rec.append(rec)
+    values = [
+        ("small-ints", [0, 1, -1, 255, 256, 65535, 65536, 2 ** 31 - 1, 2 ** 31, -(2 ** 31), -(2 ** 31) - 1]),
+        ("big-ints", [big, -big, 2 ** 63, -(2 ** 63), 2 ** 2040]),
+        ("floats", [0.0, -0.0, 1.5, float("inf"), 1e300]),
+        ("singletons", [None, True, False]),
+        ("text", ["", "ascii", "h\xe9llo", "€", "\U0001f600", "x" * 255, "x" * 256, "\xe9" * 128, "line\nbreak", "back\\slash", "quote'\""]),
+        ("bytes", [b"", b"abc", b"\x00\xff", b"x" * 255, b"x" * 256]),
+        ("tuples", [(), (1,), (1, 2), (1, 2, 3), (1, 2, 3, 4)]),
+        ("containers", [{"a": 1, "b": [1, 2, {"c": (3,)}]}, {1, 2}, frozenset({3})]),
+        ("shared-and-recursive", [shared, shared, rec]),
+        ("reduce-and-newobj", [collections.OrderedDict(a=1), fractions.Fraction(1, 3), datetime.date(2020, 1, 2), complex(1, 2), range(3), slice(1, 2)]),
+        ("global-only", [collections.OrderedDict, len]),
+    ]
+    if tier == "thorough":
+        values += [
+            ("long-list", list(range(2500))),
+            ("long-text", ["x" * 65536, "\xe9" * 40000]),
+            ("long-bytes", b"y" * 70000),
+            ("big-dict", {i: str(i) for i in range(1200)}),
+            ("bytearray", [bytearray(b"abc")]),
+        ]
+    out = []
+    for label, v in values:
+        for proto in range(0, 6):
+            try:
+                out.append((f"pickle.dumps({label}, protocol={proto})", pickle.dumps(v, proto)))
+            except Exception:
+                continue
+    hand = [
+        ("INT 01 (protocol-0 True)", b"I01\n."), ("INT 00 (protocol-0 False)", b"I00\n."), ("INT 1", b"I1\n."), ("INT with leading zeros", b"I007\n."), ("INT negative", b"I-5\n."),
+        ("LONG with L suffix", b"L5L\n."), ("LONG without suffix", b"L5\n."), ("LONG negative", b"L-12345678901234567890L\n."),
+        ("LONG1 minimal", b"\x8a\x01\x05."), ("LONG1 empty payload", b"\x8a\x00."), ("LONG1 non-minimal payload", b"\x8a\x05\x00\x00\x00\x80\x00."), ("LONG4", b"\x8b\x02\x00\x00\x00\x01\x02."),
+        ("STRING double-quoted", b'S"dq"\n.'), ("STRING single-quoted", b"S'sq'\n."), ("STRING with escape", b"S'a\\x41b'\n."),
+        ("UNICODE with escape", b"V\\u00e9x\n."), ("UNICODE raw utf-8", "Véx\n.".encode("utf-8")),
+        ("SHORT_BINSTRING", b"U\x03abc."), ("BINSTRING", b"T\x03\x00\x00\x00abc."), ("BINUNICODE8", b"\x80\x04\x8d\x03\x00\x00\x00\x00\x00\x00\x00abc."), ("BINBYTES8", b"\x80\x04\x8e\x02\x00\x00\x00\x00\x00\x00\x00hi."),
+        ("BINFLOAT", b"G?\xf8\x00\x00\x00\x00\x00\x00."), ("BININT2", b"M\x00\x01."), ("BININT negative", b"J\xff\xff\xff\xff."),
+        ("text PUT/GET", b"]p0\ng0\n."), ("text PUT with spaces", b"]p 7\ng7\n."), ("BINPUT/BINGET", b"]q\x05h\x05."), ("LONG_BINPUT/GET", b"]r\x00\x01\x00\x00j\x00\x01\x00\x00."), ("MEMOIZE", b"\x80\x04]\x94h\x00."),
+        ("GLOBAL", b"cos\nsystem\n."), ("GLOBAL with spaces in names", b"cmy mod\nmy attr\n."), ("STACK_GLOBAL", b"\x80\x04\x8c\x02os\x8c\x06system\x93."), ("INST", b"(S'a'\nicollections\nOrderedDict\n."), ("OBJ", b"(ccollections\nOrderedDict\no."),
+        ("NEWOBJ", b"\x80\x02ccollections\nOrderedDict\n)\x81."), ("NEWOBJ_EX", b"\x80\x04ccollections\nOrderedDict\n)}\x92."), ("REDUCE+BUILD", b"ccollections\nOrderedDict\n)R}b."),
+        ("FRAME with a wrong length", b"\x80\x04\x95\xff\x00\x00\x00\x00\x00\x00\x00K\x01."), ("FRAME zero", b"\x80\x04\x95\x00\x00\x00\x00\x00\x00\x00\x00K\x01."), ("two PROTO opcodes", b"\x80\x02\x80\x03K\x01."), ("PROTO not first", b"K\x01\x80\x020K\x02."),
+        ("POP / DUP / POP_MARK", b"K\x012(K\x02K\x0310."), ("PERSID", b"Pfoo\n."), ("BINPERSID", b"K\x01Q."), ("EMPTY_SET/ADDITEMS/FROZENSET", b"\x80\x04\x8f(K\x01K\x02\x90(K\x03\x91\x86."),
+        ("APPEND/SETITEM", b"]K\x01a}K\x01K\x02s\x86."), ("TUPLE1/2/3", b"K\x01\x85K\x02K\x03\x86K\x04K\x05K\x06\x87\x86."), ("DICT/LIST from marks", b"(K\x01K\x02d(K\x03l\x86."), ("NEWTRUE/NEWFALSE/NONE", b"\x80\x02\x88\x89N\x87."),
+        ("EXT1", b"\x82\x01."), ("BYTEARRAY8", b"\x80\x05\x96\x02\x00\x00\x00\x00\x00\x00\x00hi."), ("NEXT_BUFFER", b"\x80\x05\x97."), ("FLOAT text", b"F2.5\n."),
+    ]
+    out += hand
+    return out
+
+
+def _fresh_objeval(repo: Repo):
+    from ..model import opcode_registry
+    from ..objeval import ObjEval
+
+    oe = ObjEval(repo)
+    ops, _ = opcode_registry(repo)
+    from ..objeval import ImportTimeRegistry
+
+    oe.module_specials[("fickling.fickle", "OPCODES_BY_NAME")] = lambda: ImportTimeRegistry(oe, {o.opname: oe.ref(o.cls) for o in ops})
+    return oe
+
+
+_RT_REPO = None
+
+
+def _rt_chunk(items):
+    import io
+    import pickletools
+
+    from ..minieval import PyRaise, Unsupported
+    from ..objeval import Instance
+
+    repo = _RT_REPO
+    pk = repo.cls("fickling.fickle.Pickled")
+    sp = repo.cls("fickling.fickle.StackedPickle")
+    out = []
+    for kind, label, parts in items:
+        try:
+            oe = _fresh_objeval(repo)
+            if kind == "single":
+                data = parts[0]
+                stream = io.BytesIO(data + b"TRAILING")
+                P = oe.ref(pk).sa_attr("load")(stream)
+                end = stream.tell()
+                got = P.sa_attr("dumps")()
+                again = oe.ref(pk).sa_attr("load")(data).sa_attr("dumps")()  # from a byte string
+                out.append(("ok", got, end, again))
+            else:
+                whole = b"".join(parts)
+                stream = io.BytesIO(whole)
+                S = oe.ref(sp).sa_attr("load")(stream)
+                elems = [e.sa_attr("dumps")() for e in list(S.sa_attr("pickled"))]
+                S2 = oe.ref(sp).sa_attr("load")(whole)  # the same stack handed over as a byte string
+                elems2 = [e.sa_attr("dumps")() for e in list(S2.sa_attr("pickled"))]
+                out.append(("ok", elems, stream.tell(), elems2))
+        except PyRaise as pe:
+            out.append(("raises", pe.name))
+        except Unsupported as e:
+            out.append(("unsupported", str(e)))
+    return out
+
+
+def _first_diff_opcode(data: bytes, got: bytes) -> str:
+    import io
+    import pickletools
+
+    i = next((k for k in range(min(len(data), len(got))) if data[k] != got[k]), min(len(data), len(got)))
+    name = "?"
+    try:
+        for info, _a, pos in pickletools.genops(io.BytesIO(data)):
+            if pos is not None and pos <= i:
+                name = info.name
+            else:
+                break
+    except Exception:
+        pass
+    return name
+
+
+def check_round_trip(repo: Repo, rep: Report, tier: str):
+    import multiprocessing as mp
+    from concurrent.futures import ProcessPoolExecutor
+
+    global _RT_REPO
+    rule = "C06.round-trip"
+    pk = repo.cls("fickling.fickle.Pickled")
+    corpus = _corpus(tier)
+    items = [("single", label, [data]) for label, data in corpus]
+    _RT_REPO = repo
+    jobs = min(16, os.cpu_count() or 1)
+    chunks = [items[i::jobs] for i in range(jobs)]
+    try:
+        with ProcessPoolExecutor(max_workers=jobs, mp_context=mp.get_context("fork")) as ex:
+            parts = list(ex.map(_rt_chunk, chunks))
+    except (OSError, RuntimeError):
+        parts = [_rt_chunk(c) for c in chunks]
+    bad: Dict[str, Tuple[int, str]] = {}
+
+    def note(key, msg):
+        c, m = bad.get(key, (0, msg))
+        bad[key] = (c + 1, m)
+
+    parsed = []
+    n_ok = n_refused = 0
+    for chunk, outs in zip(chunks, parts):
+        for (kind, label, ps), o in zip(chunk, outs):
+            data = ps[0]
+            if o[0] == "unsupported":
+                raise AnalysisError(f"C06.round-trip: cannot interpret Pickled.load/dumps over {label}: {o[1]}")
+            if o[0] == "raises":
+                if o[1] == "NotImplementedError":
+                    n_refused += 1  # an opcode fickling does not implement: refused as a whole (C03.refuse), nothing re-serialised
+                else:
+                    note(f"valid-pickle-refused:{o[1]}", f"Pickled.load raises {o[1]} on {label} ({data[:24]!r}...), a stream CPython's own reader accepts and every opcode of which fickling implements")
+                continue
+            _, got, end, again = o
+            if got != data:
+                note(f"not-byte-exact:{_first_diff_opcode(data, got)}", f"Pickled.load(<stream>).dumps() differs from the input for {label}: first difference in opcode {_first_diff_opcode(data, got)} (input {data[:32]!r}..., output {got[:32]!r}...)")
+            elif again != data:
+                note(f"not-byte-exact-from-bytes:{_first_diff_opcode(data, again)}", f"Pickled.load(<bytes>).dumps() differs from the input for {label} (first difference in opcode {_first_diff_opcode(data, again)})")
+            elif end != len(data):
+                note("end-position", f"after Pickled.load the stream is at offset {end}, not at the end of the pickle ({len(data)}), for {label}")
+            else:
+                n_ok += 1
+                parsed.append((label, data))
+    # stacked pickles: consecutive members of the corpus concatenated three at a time (and one long stack)
+    stacks = [parsed[i:i + 3] for i in range(0, len(parsed) - 2, 3)]
+    if parsed:
+        stacks.append(parsed[: min(len(parsed), 40)])
+    sitems = [("stack", " + ".join(l for l, _ in st)[:160], [d for _, d in st]) for st in stacks]
+    schunks = [sitems[i::jobs] for i in range(jobs)]
+    try:
+        with ProcessPoolExecutor(max_workers=jobs, mp_context=mp.get_context("fork")) as ex:
+            sparts = list(ex.map(_rt_chunk, schunks))
+    except (OSError, RuntimeError):
+        sparts = [_rt_chunk(c) for c in schunks]
+    n_stacks = 0
+    for chunk, outs in zip(schunks, sparts):
+        for (kind, label, ps), o in zip(chunk, outs):
+            if o[0] == "unsupported":
+                raise AnalysisError(f"C06.round-trip: cannot interpret StackedPickle.load over {label}: {o[1]}")
+            if o[0] == "raises":
+                note(f"stack-refused:{o[1]}", f"StackedPickle.load raises {o[1]} on the concatenation of {len(ps)} pickles each of which parses alone ({label})")
+                continue
+            _, elems, end, elems2 = o
+            if elems == ps and elems2 != ps:
+                note("stack-partition-from-bytes", f"StackedPickle.load(<bytes>) of {len(ps)} concatenated pickles yields {len(elems2)} element(s) that are not the members ({label}), although the same stack read from a stream partitions correctly")
+            if elems != ps:
+                k = next((i for i, (a, b) in enumerate(zip(elems, ps)) if a != b), min(len(elems), len(ps)))
+                note("stack-partition", f"StackedPickle.load of {len(ps)} concatenated pickles yields {len(elems)} element(s); element #{k} is not the bytes of pickle #{k} ({label})")
+            elif end != sum(len(p_) for p_ in ps):
+                note("stack-end-position", f"after StackedPickle.load the stream is at offset {end} of {sum(len(p_) for p_ in ps)} ({label})")
+            else:
+                n_stacks += 1
+    for key, (c, m) in sorted(bad.items()):
+        rep.bad(rule, pk.qualname + ".load", key, f"{m} [{c} input(s)]", pk.module.relpath, pk.method("load").line)
+    rep.ok(rule, pk.qualname + ".load", f"{len(corpus)} byte strings (CPython's pickler output for sample values at protocols 0-5, and hand-assembled non-canonical spellings of every argument reader): {n_ok} re-serialise byte-exactly from a stream and from bytes with the stream left at the end of the pickle, {n_refused} contain an unimplemented opcode and are refused whole; {n_stacks} concatenations partition into exactly their members", "", nontrivial=True)
